@@ -338,6 +338,9 @@ impl<'a> Sim<'a> {
                         if self.sc.conns[c].to == Some(*l) && self.cs[c].started.is_some() && self.cs[c].accepted_round.is_none() {
                             self.rep.probes.inc("listener_dropped_with_unaccepted_connection");
                             self.nontrivial = true;
+                            if self.cs[c].fut.is_some() && self.cs[c].result.is_none() {
+                                self.rep.probes.inc("listener_dropped_while_connector_SynSent");
+                            }
                         }
                     }
                 }
@@ -1088,6 +1091,9 @@ fn gen_scenario(rng: &mut Rng, tier: Tier) -> Scenario {
     let nl = rng.usize(1, 2);
     let listeners: Vec<ListenerSpec> = (0..nl).map(|l| ListenerSpec { ip: if rng.chance(1, 2) { wild.to_string() } else { rng.pick(&hosts[0]).clone() }, port: 9000 + l as u16 }).collect();
     let cfg = NetCfg { retx_threshold: rng.range(2, 3) as u32, retx_max: rng.range(3, 5) as u32, backlog: rng.usize(1, 4) };
+    if rng.chance(1, 7) {
+        return gen_pressure(rng, guarded, cfg, hosts, listeners, nclients);
+    }
     let nc = if tier == Tier::Thorough { rng.usize(1, 8) } else { rng.usize(1, 5) };
     let mut conns = Vec::new();
     let mut tl: Vec<(u32, Act)> = Vec::new();
@@ -1154,6 +1160,33 @@ fn gen_scenario(rng: &mut Rng, tier: Tier) -> Scenario {
     Scenario { guarded, cfg, hosts, listeners, conns, timeline: tl, faults, reorder: rng.chance(1, 8), reuse: rng.chance(1, 3), no_count_check: false }
 }
 
+/// Backlog pressure: more connectors than the backlog admits, nobody accepts until the late
+/// comers have certainly given up; then everything queued is accepted.
+fn gen_pressure(rng: &mut Rng, guarded: bool, mut cfg: NetCfg, hosts: Vec<Vec<String>>, listeners: Vec<ListenerSpec>, nclients: usize) -> Scenario {
+    cfg.backlog = rng.usize(1, 2);
+    let n = cfg.backlog + rng.usize(1, 2);
+    let mut conns = Vec::new();
+    let mut tl = Vec::new();
+    let mut t = 0u32;
+    for c in 0..n {
+        conns.push(ConnSpec { from: rng.usize(1, nclients), to: Some(0), sel: rng.below(3) as u8 });
+        tl.push((t, Act::Connect { c }));
+        // the next one starts after this one's handshake is over
+        t += rng.range(4, 6) as u32;
+        if rng.chance(1, 4) {
+            tl.push((t, Act::Write { c, client: true, n: 8 }));
+        }
+    }
+    let give_up = cfg.retx_threshold * (cfg.retx_max + 2) + 3;
+    let mut ta = t + give_up;
+    for _ in 0..n {
+        tl.push((ta, Act::Accept { l: 0 }));
+        ta += rng.range(0, 2) as u32;
+    }
+    tl.sort_by_key(|x| x.0);
+    Scenario { guarded, cfg, hosts, listeners, conns, timeline: tl, faults: Vec::new(), reorder: false, reuse: rng.chance(1, 4), no_count_check: false }
+}
+
 impl Property for C13 {
     const ID: &'static str = "C13";
     const LEVEL: &'static str = "fault_enumeration";
@@ -1179,7 +1212,7 @@ impl Property for C13 {
     }
     fn budget(tier: Tier) -> u64 {
         match tier {
-            Tier::Quick => 12_000,
+            Tier::Quick => 36_000,
             Tier::Thorough => 300_000,
         }
     }
